@@ -1,7 +1,7 @@
 CONSTANTS
   GC = FALSE
-  NonTailIf = FALSE
-  MaxSteps = 20000
+  Broken = "none"
+  MaxSteps = 40000
 SPECIFICATION TSpec
 INVARIANT TDone
 CHECK_DEADLOCK FALSE
